@@ -336,10 +336,12 @@ class Caller(object):
         g.setName('vt')
         for rec in state:
             t = rec['type']; h = ('help for %s ' % rec['name']) * (3 if rec['help'] else 0)
-            if t == 'String': v = registry.String(rec['s'], h)
-            elif t == 'Integer': v = registry.Integer(rec['v'], h)
-            elif t == 'Boolean': v = registry.Boolean(bool(rec['v'] % 2), h)
-            else: v = registry.SpaceSeparatedListOfStrings(rec['s'].split(), h)
+            # defaults are benign (a default containing a line break is written raw into the '# Default value:'
+            # comment and makes the file unloadable: that is C15's subject, not a crash matter); values are set
+            if t == 'String': v = registry.String('dflt', h); v.setValue(rec['s'])
+            elif t == 'Integer': v = registry.Integer(0, h); v.setValue(rec['v'])
+            elif t == 'Boolean': v = registry.Boolean(False, h); v.setValue(bool(rec['v'] % 2))
+            else: v = registry.SpaceSeparatedListOfStrings([], h); v.setValue(rec['s'].split())
             g.register(rec['name'], v)
         def load():
             registry.open_registry(path, clear=True)
@@ -700,6 +702,15 @@ def scenarios(ctx, root, r, thorough):
                         if sizename == 'same' and r.random() < 0.7:
                             new = old
                         out.append(Scenario(root, kind, sizename, old, new, cfg))
+        # contents larger than the runtime's write buffer: part of the temp file reaches the disk before close()
+        if kind in ('users', 'registry', 'flat'):
+            for cfg in (CONFIGS[0], CONFIGS[1]) + ((CONFIGS_X[0],) if thorough else ()):
+                st_old = gen_state(r, kind, 70)
+                st_new = gen_state(r, kind, 90)
+                if kind == 'flat':
+                    out.append(Scenario(root, kind, 'big', st_new, st_new, cfg))
+                else:
+                    out.append(Scenario(root, kind, 'big', st_old, st_new, cfg))
         # aborted flushes (caller raises: rollback through __del__)
         for cfg in (CONFIGS[0], CONFIGS[1]):
             if kind != 'flat':
@@ -821,6 +832,8 @@ def run(ctx):
                             finding_status=finding_status(ctx), trusted_base=TRUSTED,
                             assumptions=['process death only (no power loss / fsync reasoning)', 'POSIX rename semantics',
                                          'Python asserts enabled', 'file contents below 8 MiB (one sendfile block)'],
+                            extra={'crash_points_killed': sum(c.input.get('crash_points', 0) for c in cases),
+                                   'scenarios': len([c for c in cases if c.kind != 'names'])},
                             t0=ctx.t0)
 
 def replay(ctx, path):
